@@ -62,6 +62,76 @@ Definition copies_as_coded (k : ckind) : bool := true.
 
 Definition all_copy (copies : ckind -> bool) : bool := forallb copies all_kinds.
 
+(* ---- the declarative part of the code, regenerated from the source on every run (translator/c03.py ->
+   Gen_C03.v : src_tables, src_shape).  `tables`: what the model is parametrised by, and the theorems are
+   stated about; `shape_facts`: constants of the model that are compared with the source inside Coq. ---- *)
+
+Inductive label_src := LAbsolute | LRelative.    (* detector.absolute_time | detector.time *)
+
+Record tables := {
+  tb_copies : ckind -> bool;                (* to_xarray of each container kind: does it copy the buffer *)
+  tb_label : label_src;                     (* _extract_datatree_2d: which time labels the slice *)
+  tb_exported : list (bucket * bucket);     (* _extract_datatree_2d: variable of the step dataset <- container read *)
+  tb_visible : list (bucket * bucket);      (* Detector.to_xarray (debug capture): variable <- container, in order *)
+  tb_skip_zero : bucket -> bool }.          (* Detector.to_xarray leaves this variable out when it is all zero *)
+
+Definition id_pairs : list (bucket * bucket) := map (fun b => (b, b)) all_buckets.
+
+Definition tables_as_coded : tables :=
+  {| tb_copies := copies_as_coded; tb_label := LAbsolute; tb_exported := id_pairs; tb_visible := id_pairs;
+     tb_skip_zero := fun b => bucket_eqb b Charge |}.
+
+Fixpoint source_of (t : list (bucket * bucket)) (v : bucket) : option bucket :=
+  match t with
+  | [] => None
+  | (v', src) :: t' => if bucket_eqb v v' then Some src else source_of t' v
+  end.
+
+Fixpoint pairs_eqb (a b : list (bucket * bucket)) : bool :=
+  match a, b with
+  | [], [] => true
+  | (x, y) :: a', (x', y') :: b' => bucket_eqb x x' && bucket_eqb y y' && pairs_eqb a' b'
+  | _, _ => false
+  end.
+
+Definition exports_all_b (t : tables) : bool :=
+  forallb (fun v => match source_of (tb_exported t) v with Some src => bucket_eqb src v | None => false end) all_buckets.
+
+Definition visible_std_b (t : tables) : bool :=
+  pairs_eqb (tb_visible t) id_pairs
+  && forallb (fun b => Bool.eqb (tb_skip_zero t b) (bucket_eqb b Charge)) all_buckets.
+
+Definition label_abs_b (t : tables) : bool := match tb_label t with LAbsolute => true | LRelative => false end.
+
+(* everything the theorems of Properties/C03.v ask of the tables *)
+Definition tables_ok (t : tables) : bool :=
+  all_copy (tb_copies t) && label_abs_b t && exports_all_b t && visible_std_b t.
+
+Inductive cast_kind := CastKeep | CastF64.
+Inductive lguard := GAlways | GHier | GFlat | GDebug | GOutputs.
+
+Record shape_facts := {
+  sf_dims : ckind -> list string;           (* to_xarray: dimension names *)
+  sf_origin : ckind -> Z * Z;               (* to_xarray: first row / column index of the y / x coordinates *)
+  sf_cast : ckind -> cast_kind;             (* to_xarray: dtype kept, or converted to float64 (astype(None)) *)
+  sf_time_dim : string;                     (* expand_dims / assign_coords in _extract_datatree_2d *)
+  sf_concat_dim : string;                   (* xr.concat(..., dim=) in run_pipeline *)
+  sf_concat_order : list string;            (* arguments of the concatenation: accumulated result, then the step *)
+  sf_first_step_as_is : bool;               (* `if buckets_data_tree.is_empty: buckets_data_tree = partial` *)
+  sf_step_order : list string;              (* per step: reset, run the models, read out, concatenate *)
+  sf_reset_flag_negated : bool;             (* detector.empty(not detector.non_destructive_readout) *)
+  sf_fix_var : string;                      (* the variable whose dtype is restored ... *)
+  sf_fix_guarded : bool;                    (* ... only when the detector holds an image ... *)
+  sf_fix_target : string;                   (* ... to the dtype of this container *)
+  sf_layout : list (string * lguard);       (* keys of the final DataTree, in insertion order, with their guards *)
+  sf_scene_forces_hier : bool;
+  sf_scene_src : string; sf_data_src : string; sf_inter_src : string;
+  sf_vis_ndim_filter : bool;                (* Detector.to_xarray skips uninitialised containers *)
+  sf_debug_ref_before_model : bool;         (* ModelGroup.run: the reference is taken before model(detector) ... *)
+  sf_debug_ref_deep : bool;                 (* ... as a deep copy *)
+  sf_debug_compare : string;                (* np.allclose *)
+  sf_debug_path : list string }.            (* node path: time_idx_<pipeline_count> / group / model / variable *)
+
 Fixpoint zlist_eqb (a b : list Z) : bool :=
   match a, b with
   | [], [] => true
@@ -199,7 +269,7 @@ Section Exposure.
   Context {Scene Data : Type}.
   Variable empty_scene : Scene.
   Variable scene_is_empty : Scene -> bool.
-  Variable copies : ckind -> bool.        (* which read-outs copy the buffer (copies_as_coded for the code as written) *)
+  Variable tbl : tables.                  (* the declarative part of the code (tables_as_coded / the regenerated src_tables) *)
 
   (* d_gen b: the identity ("generation") of the buffer that container b holds.  A model that changes a
      container IN PLACE (`+=`, `[...] =`, Charge.add_charge_array) keeps it; one that assigns a new array
@@ -258,14 +328,36 @@ Section Exposure.
         end
     end.
 
-  (* a variable read out of state d, seen after the detector went through the states `later` *)
-  Definition settle (d : det) (later : list det) (ba : bucket * arr) : bucket * arr :=
-    if copies (kind_of (fst ba) (snd ba)) then ba
-    else (fst ba, follow (fst ba) (d_gen d (fst ba)) (snd ba) later).
+  (* an array read out of container src in state d, seen after the detector went through the states `later` *)
+  Definition settle_arr (d : det) (later : list det) (src : bucket) (a : arr) : arr :=
+    if tb_copies tbl (kind_of src a) then a else follow src (d_gen d src) a later.
 
-  Definition settle_snapshot (d : det) (later : list det) (s : snapshot) : snapshot :=
-    let f b := option_map (fun a => snd (settle d later (b, a))) (get s b) in
+  Definition build_snapshot (f : bucket -> option arr) : snapshot :=
     {| s_photon := f Photon; s_charge := f Charge; s_pixel := f Pixel; s_signal := f Signal; s_image := f Image |}.
+
+  (* _extract_datatree_2d: the variables of the step dataset, each read out of its container *)
+  Definition export (s : snapshot) : snapshot :=
+    build_snapshot (fun v => match source_of (tb_exported tbl) v with Some src => get s src | None => None end).
+
+  Definition settle_export (d : det) (later : list det) (s : snapshot) : snapshot :=
+    build_snapshot (fun v => match source_of (tb_exported tbl) v with
+                             | Some src => option_map (settle_arr d later src) (get s src)
+                             | None => None
+                             end).
+
+  (* Detector.to_xarray: the initialised containers of the table; a skip-zero variable is left out when all zero *)
+  Definition visible_t (s : snapshot) : capture :=
+    flat_map (fun vs => match get s (snd vs) with
+                        | None => []
+                        | Some a => if tb_skip_zero tbl (fst vs) && all_zero a then [] else [(fst vs, a)]
+                        end) (tb_visible tbl).
+
+  (* a variable of a debug node, read out of state d *)
+  Definition settle (d : det) (later : list det) (ba : bucket * arr) : bucket * arr :=
+    match source_of (tb_visible tbl) (fst ba) with
+    | Some src => (fst ba, settle_arr d later src (snd ba))
+    | None => ba
+    end.
 
   Fixpoint model_states (i : nat) (ms : list mdl) (d : det) : list det :=
     match ms with
@@ -288,9 +380,9 @@ Section Exposure.
     match ms with
     | [] => []
     | m :: ms' =>
-        let before := visible (view d) in
+        let before := visible_t (view d) in
         let d' := m_fn m i d in
-        let cur := visible (view d') in
+        let cur := visible_t (view d') in
         {| n_step := i; n_group := m_group m; n_name := m_name m; n_vars := diff before cur |}
           :: debug_models i ms' d'
     end.
@@ -333,7 +425,11 @@ Section Exposure.
     (match l with Flat => [] | Hier => ["bucket"%string] end)
        ++ (if debug then ["intermediate"%string] else []) ++ ["scene"%string; "data"%string].
 
-  Definition labels (c : config) : list Z := map (Z.add (c_start c)) (c_times c).
+  Definition labels (c : config) : list Z :=
+    match tb_label tbl with
+    | LAbsolute => map (Z.add (c_start c)) (c_times c)
+    | LRelative => c_times c
+    end.
 
   (* what the result holds of each step: the read-out of the detector at the end of the step.  The first
      step's dataset is kept AS IT IS until the concatenation at the end of the second step (which allocates
@@ -346,7 +442,7 @@ Section Exposure.
                      | [] => []
                      | _ :: _ => let d1 := reset (c_shape c) (c_nondestr c) e0 in d1 :: model_states 1 (c_models c) d1
                      end in
-        settle_snapshot e0 later (view e0) :: map view rest
+        settle_export e0 later (view e0) :: map (fun d => export (view d)) rest
     end.
 
   Definition exposure (c : config) (d_init : det) : tree :=
@@ -651,6 +747,84 @@ Fixpoint ovars_eqb (a b : list ovar) : bool :=
   | _, _ => false
   end.
 
+(* ---- the constants of the model that are compared with the source (Gen_C03.src_shape) ---- *)
+
+Definition shape_as_modelled : shape_facts :=
+  {| sf_dims := fun k => match k with
+                         | KPhoton3 => ["wavelength"%string; "y"%string; "x"%string]
+                         | _ => ["y"%string; "x"%string]
+                         end;
+     sf_origin := fun _ => (0, 0);
+     sf_cast := fun k => match k with KPhoton3 => CastF64 | _ => CastKeep end;
+     sf_time_dim := "time"; sf_concat_dim := "time";
+     sf_concat_order := ["accumulated"%string; "step"%string];
+     sf_first_step_as_is := true;
+     sf_step_order := ["reset"%string; "run"%string; "extract"%string; "concat"%string];
+     sf_reset_flag_negated := true;
+     sf_fix_var := "image"; sf_fix_guarded := true; sf_fix_target := "image";
+     sf_layout := [("/bucket"%string, GHier); ("/"%string, GFlat); ("/intermediate"%string, GDebug);
+                   ("/output"%string, GOutputs); ("/scene"%string, GAlways); ("/data"%string, GAlways)];
+     sf_scene_forces_hier := true;
+     sf_scene_src := "detector.scene.data"; sf_data_src := "detector.data"; sf_inter_src := "detector.intermediate";
+     sf_vis_ndim_filter := true;
+     sf_debug_ref_before_model := true; sf_debug_ref_deep := true; sf_debug_compare := "allclose";
+     sf_debug_path := ["time_idx"%string; "group"%string; "model"%string; "name"%string] |}.
+
+Definition cast_eqb (a b : cast_kind) : bool :=
+  match a, b with CastKeep, CastKeep | CastF64, CastF64 => true | _, _ => false end.
+
+Definition lguard_eqb (a b : lguard) : bool :=
+  match a, b with
+  | GAlways, GAlways | GHier, GHier | GFlat, GFlat | GDebug, GDebug | GOutputs, GOutputs => true
+  | _, _ => false
+  end.
+
+Fixpoint layout_eqb (a b : list (string * lguard)) : bool :=
+  match a, b with
+  | [], [] => true
+  | (k, g) :: a', (k', g') :: b' => String.eqb k k' && lguard_eqb g g' && layout_eqb a' b'
+  | _, _ => false
+  end.
+
+Definition shape_eqb (a b : shape_facts) : bool :=
+  forallb (fun k => string_list_eqb (sf_dims a k) (sf_dims b k)
+                    && (fst (sf_origin a k) =? fst (sf_origin b k)) && (snd (sf_origin a k) =? snd (sf_origin b k))
+                    && cast_eqb (sf_cast a k) (sf_cast b k)) all_kinds
+  && String.eqb (sf_time_dim a) (sf_time_dim b) && String.eqb (sf_concat_dim a) (sf_concat_dim b)
+  && string_list_eqb (sf_concat_order a) (sf_concat_order b)
+  && Bool.eqb (sf_first_step_as_is a) (sf_first_step_as_is b)
+  && string_list_eqb (sf_step_order a) (sf_step_order b)
+  && Bool.eqb (sf_reset_flag_negated a) (sf_reset_flag_negated b)
+  && String.eqb (sf_fix_var a) (sf_fix_var b) && Bool.eqb (sf_fix_guarded a) (sf_fix_guarded b)
+  && String.eqb (sf_fix_target a) (sf_fix_target b)
+  && layout_eqb (sf_layout a) (sf_layout b)
+  && Bool.eqb (sf_scene_forces_hier a) (sf_scene_forces_hier b)
+  && String.eqb (sf_scene_src a) (sf_scene_src b) && String.eqb (sf_data_src a) (sf_data_src b)
+  && String.eqb (sf_inter_src a) (sf_inter_src b)
+  && Bool.eqb (sf_vis_ndim_filter a) (sf_vis_ndim_filter b)
+  && Bool.eqb (sf_debug_ref_before_model a) (sf_debug_ref_before_model b)
+  && String.eqb (sf_debug_compare a) (sf_debug_compare b)
+  && string_list_eqb (sf_debug_path a) (sf_debug_path b).
+
+(* the keys of the final DataTree that the layout table gives for a run (outputs are never saved by the model) *)
+Definition layout_keys (sf : shape_facts) (l : layout) (debug : bool) : list string :=
+  map fst (filter (fun kg => match snd kg with
+                             | GAlways => true
+                             | GHier => match l with Hier => true | Flat => false end
+                             | GFlat => match l with Flat => true | Hier => false end
+                             | GDebug => debug
+                             | GOutputs => false
+                             end) (sf_layout sf)).
+
+Definition strip_slash (s : string) : string :=
+  match s with String c r => if Ascii.eqb c "/"%char then r else s | EmptyString => s end.
+
+(* bucket node path, children of the root *)
+Definition layout_view (sf : shape_facts) (l : layout) (debug : bool) : string * list string :=
+  let ks := layout_keys sf l debug in
+  (match l with Flat => "/"%string | Hier => "/bucket"%string end,
+   map strip_slash (filter (fun k => negb (String.eqb k "/")) ks)).
+
 (* ---- the model's prediction for a case ---- *)
 
 Definition config_of (k : case) : config payload payload :=
@@ -658,8 +832,8 @@ Definition config_of (k : case) : config payload payload :=
      c_nondestr := k_nondestr k; c_layout := if k_hier k then Hier else Flat; c_debug := k_debug k;
      c_models := map (mdl_of [k_rows k; k_cols k]) (k_models k) |}.
 
-Definition model_tree (k : case) : option (tree payload payload) :=
-  Some (exposure [] payload_is_empty copies_as_coded (config_of k) pdet0).
+Definition model_tree (tbl : tables) (k : case) : option (tree payload payload) :=
+  Some (exposure [] payload_is_empty tbl (config_of k) pdet0).
 
 Definition tree_matches (k : case) (t : tree payload payload) (o : otree) : bool :=
   String.eqb (t_bucket_path t) (o_bucket_path o)
@@ -673,8 +847,8 @@ Definition tree_matches (k : case) (t : tree payload payload) (o : otree) : bool
   && payload_eqb (t_scene t) (o_scene o) && payload_eqb (t_data t) (o_data o).
 
 (* model <> implementation *)
-Definition case_mismatch (k : case) : bool :=
-  match model_tree k, k_result k with
+Definition case_mismatch (tbl : tables) (k : case) : bool :=
+  match model_tree tbl k, k_result k with
   | None, None => false
   | Some t, Some o => negb (tree_matches k t o)
   | _, _ => true
@@ -755,7 +929,7 @@ Fixpoint indices_where {A} (f : A -> bool) (l : list A) (i : Z) : list Z :=
   | x :: l' => (if f x then [i] else []) ++ indices_where f l' (i + 1)
   end.
 
-Definition mismatches (cs : list case) : list Z := indices_where case_mismatch cs 0.
+Definition mismatches (tbl : tables) (cs : list case) : list Z := indices_where (case_mismatch tbl) cs 0.
 
 (* violations: flat list of  index * 10 + clause *)
 Fixpoint violations_from (cs : list case) (i : Z) : list Z :=
